@@ -278,8 +278,11 @@ def c09(run):
 def c12(run):
     run.rule = ("script Alias of spec/mc/MCLedger.tla: account/commodity declarations with aliases (including conflicting ones) in every "
                 "position among two transactions that use canonical names and aliases in postings, amounts, costs and assertions; each "
-                "accepted behaviour is also run with every alias replaced by its canonical name (two-run product check)")
+                "accepted behaviour is also run with every alias replaced by its canonical name (two-run product check); query side (Ledger.tla Lookup): "
+                "every name of the final intern tables and one never-mentioned name is asked through ReportContext::account / ::commodity and "
+                "Ledger::eval(\"1 <name>\") and must answer with the specification's canonical name")
     run.assumptions += LEDGER_ASSUME + ["an alias declared for two canonical names silently keeps the first (the property is silent)",
+                                        "the register's account filter compares the written name (it is documented to become a pattern); filtering by an alias is outside the claim",
                                         "`okane accounts` is outside the claim (it lists names without processing declarations)"]
     # behaviours that reach the deferred-assertion shape through an alias belong to C02's recorded finding
     ledger_scenarios(run, ["Alias"] if run.tier == "quick" else ["Alias", "AliasT"], mode="ledger-alias",
@@ -595,7 +598,9 @@ def c06(run):
     run.rule = ("spec/Totality.tla: from 469 valid texts (Syntax.tla's catalogue in four styles, two-entry files) one mutation: every prefix cut at "
                 "every character, every short deletion, duplication, and - for 40 texts covering every construct - every token of the ledger alphabet "
                 "and 12 awkward Unicode scalars (combining, wide, BOM, zero-width, NUL, non-BMP, lone CR) inserted at every position; amounts nested "
-                "1..20000 parentheses deep; all include graphs over three files with cyclic and missing includes (Loader.tla); zero-valued "
+                "1..20000 parentheses deep; the same machine over 13 price databases (both date styles, grouped numbers, CRLF, missing final newline, "
+                "zero / negative / self rates) with 35 tokens, each loaded next to a fixed ledger and asked every conversion (balance -X up-to-date and "
+                "historical into four commodities, eval at four dates, the CLI with --price-db); all include graphs over three files with cyclic and missing includes (Loader.tla); zero-valued "
                 "amounts, rates and totals in every position (Ledger.tla CostLot/Plain scripts); thorough: TLC simulation of mutation walks of depth <= 12. "
                 "Each input goes to parse_ledger, format, Loader::load + report::process + balance/eval, and every 10th to the CLI commands "
                 "format/balance/register/accounts/flatten/balance -X; non-trivial = inputs that do not parse or are rejected")
@@ -613,6 +618,16 @@ def c06(run):
         st["scenario"] = "mutation walks (simulation)"
         run.add_model(st)
         feed(run, "total", nd, key=lambda r: r["text"], nontrivial=hard)
+    # the price database is a second input file: the same mutation machine over `P` lines
+    nd, n, st = tlc_gen("MCTotality.tla", "Totality_price.cfg", "C06-price", workers=8, timeout=1700, dedup=True)
+    st["scenario"] = "price database, one mutation"
+    run.add_model(st)
+    feed(run, "total", nd, key=lambda r: "pricedb:" + r["text"], nontrivial=hard)
+    if run.tier == "thorough":
+        nd, n, st = tlc_gen("MCTotality.tla", "Totality_priceT.cfg", "C06-pricewalk", simulate={"num": 6000, "depth": 9}, seed=run.seed, timeout=2400)
+        st["scenario"] = "price database, mutation walks (simulation)"
+        run.add_model(st)
+        feed(run, "total", nd, key=lambda r: "pricedb:" + r["text"], nontrivial=hard)
     # include graphs with cycles / missing files
     run.add_model(tlc_check("MCLoader.tla", "Loader_ArbLive.cfg", workers=4))
     nd, n, st = tlc_gen("MCLoader.tla", "Loader_Arb.cfg", "C06-loader", workers=8, timeout=2400, dedup=True)
@@ -671,10 +686,12 @@ def c16(run):
     run.rule = ("spec/ImportCsv.tla: statements of 1-2 rows (thorough 3) with amounts {-2.00, 1.00, 10.50, -1,234.50} (thousands separators, quoted cells), "
                 "optional rate 2 / 0.5 with consistent secondary amount, a note, Unicode payee; configurations: asset/liability x amount or credit/debit columns "
                 "x layout by index / label / template x delimiter x skipped head lines x date format x row_order x balance column x conversion "
-                "(none, extract/compute x price_of_secondary/price_of_primary, disabled) x opening balance 0 / 500; non-trivial = every statement")
+                "(none, extract/compute x price_of_secondary/price_of_primary, disabled) x opening balance 0 / 500; a charge column (empty, 0.00, 1.00 per row; "
+                "the fee is a part of the row's amount and is taken out of the counter amount; the charge posting names the operator) under every "
+                "conversion mode, account type and column kind; non-trivial = every statement")
     run.assumptions += ["amounts and rates are of the form 2^a*5^b so computed secondary amounts are exact; values are compared numerically (scale is C15's)",
                         "the counter account and its pending mark are C17's and are not compared here",
-                        "the balance column is generated for asset accounts only; charges are outside this specification (DESIGN section 9)",
+                        "the balance column is generated for asset accounts only; a charge is a fee (positive) smaller than the row's amount",
                         "the default conversion (commodity.conversion) is used, so rows without a rate are booked without conversion"]
     cfg = "ImportCsv_quick.cfg" if run.tier == "quick" else "ImportCsv_thorough.cfg"
     if run.tier == "quick":
@@ -698,9 +715,10 @@ MODES["C16"] = "csv"
 @check("C18")
 def c18(run):
     run.rule = ("spec/ImportCamt.tla: consistent statements of 1-2 entries (thorough 3): credit/debit x amounts {1.00, 10.50, 2.00 as 1+1, 10.50 as 10+0.50, "
-                "10.50 with an included charge of 0.50, 1234.56 as a one-detail batch} x value date before/equal to booking date, opening balance "
+                "10.50 with an included charge of 0.50 (with and without the amount before charges shown; credited back), 20.50 as a charged and a plain detail, "
+                "10.50 / 5.00 without details carrying their own charge of 0.50 / 5.00, 1234.56 as a one-detail batch, mixed-direction details} x value date before/equal to booking date, opening balance "
                 "0 / 1000.00 / -50.00 (debit balance), both row orders; non-trivial = statements with a batch")
-    run.assumptions += ["single-currency statements; charges are of the `included` kind and come with transaction amount details (TxAmt = amount - charge), on debits",
+    run.assumptions += ["single-currency statements; charges are of the `included` kind, on debits, next to a detail (with or without AmtDtls) or on an entry without details",
                         "the date of the opening-balance transaction is not compared (the statement does not say)",
                         "the account is given the opening balance by a funding transaction before the imported ledger is processed"]
     cfg = "ImportCamt_quick.cfg" if run.tier == "quick" else "ImportCamt_thorough.cfg"
